@@ -415,6 +415,16 @@ def seq_str(seq, mode="sym"):
     return seq_bytes(seq, mode).decode("latin-1")
 
 
+def _first_user_frame(body):
+    """First frame of the faulting stack that is not inside the sanitizer runtime."""
+    ma = re.search(r"^(?:READ|WRITE) of size \d+.*\n((?:\s+#\d+ .*\n)+)", body, re.M)
+    for fl in (ma.group(1).splitlines() if ma else []):
+        mm = re.match(r"\s+#\d+ \S+ in (\w+) (\S+?):(\d+)", fl)
+        if mm and "libsanitizer" not in mm.group(2) and not mm.group(1).startswith("__interceptor"):
+            return mm
+    return None
+
+
 def parse_san_reports(text):
     """Split the harness's stderr into tagged sanitizer reports."""
     out = []
@@ -426,14 +436,7 @@ def parse_san_reports(text):
         if rep["tool"] == "asan":
             e = re.search(r"AddressSanitizer: ([\w-]+)", body)
             a = re.search(r"^(READ|WRITE) of size (\d+)", body, re.M)
-            # first frame of the faulting stack that is not inside the sanitizer runtime
-            f0 = None
-            ma = re.search(r"^(?:READ|WRITE) of size \d+.*\n((?:\s+#\d+ .*\n)+)", body, re.M)
-            for fl in (ma.group(1).splitlines() if ma else []):
-                mm = re.match(r"\s+#\d+ \S+ in (\w+) (\S+?):(\d+)", fl)
-                if mm and "libsanitizer" not in mm.group(2) and not mm.group(1).startswith("__interceptor"):
-                    f0 = mm
-                    break
+            f0 = _first_user_frame(body)
             loc = re.search(r"is located (\d+) bytes (to the left of|to the right of|before|after|inside of|inside) "
                             r"(\d+)-byte region", body)
             rep["error"] = e.group(1) if e else "?"
@@ -580,8 +583,7 @@ def realise_one(s):
         msg = str(e)
         return ("ffi.error", "error", "\n" in msg and msg.rstrip().endswith("^"))
     except (TypeError, ValueError) as e:
-        if isinstance(e, UnicodeError):
-            return ("escape", type(e).__name__, False)
+        # (UnicodeEncodeError for a string that cannot be encoded is a ValueError)
         return ("type_or_value", type(e).__name__, False)
     except Exception as e:
         return ("escape", type(e).__name__, False)
@@ -722,7 +724,8 @@ def realise_under_asan(ctx, strings, workdir):
                 raise InfraError("asan realisation child %d died outside a case (rc=%r)" % (k, rc))
             with open(os.path.join(workdir, "asan_err%02d" % k), "rb") as f:
                 err = f.read().decode("latin-1")
-            deaths.append({"string": shares[k][cur], "rc": rc, "report": err[-2500:]})
+            deaths.append({"string": shares[k][cur], "rc": rc,
+                           "report": err if len(err) < 4000 else err[:1500] + "\n[...]\n" + err[-2500:]})
             ent[2] += 1
             if ent[2] > 20:
                 raise InfraError("asan realisation child %d died more than 20 times" % k)
@@ -942,7 +945,8 @@ def run(ctx):
             nreal += n
             for d in deaths:
                 m = re.search(r"AddressSanitizer: ([\w-]+)", d["report"])
-                f0 = re.search(r"#0 \S+ in (\w+)", d["report"])
+                f0 = (re.search(r"SUMMARY: \w+: \S+ \S+ in (\w+)", d["report"]) or _first_user_frame(d["report"])
+                      or re.search(r"#0 \S+ in (\w+)", d["report"]))
                 u = re.search(r"runtime error: (.*)", d["report"])
                 sig = {"kind": "sanitizer_backend", "error": m.group(1) if m else (
                     re.sub(r"0x[0-9a-f]+|-?\d+", "N", u.group(1))[:60] if u else "death"),
@@ -985,11 +989,10 @@ def run(ctx):
         escapes.extend(esc)
     ctx.log("python sequences: %d cases in %.1fs" % (py_n, time.time() - t3))
     t4 = time.time()
-    muts, ntok = corpus_mutants()
-    muts += long_inputs()
-    muts += [("array_boundaries", "typeof", s) for s in array_boundaries()]
-    if "py" not in phases:
-        muts = []
+    muts, ntok = corpus_mutants() if "py" in phases else ([], 0)
+    if "py" in phases:
+        muts += long_inputs()
+        muts += [("array_boundaries", "typeof", s) for s in array_boundaries()]
     nm = 0
     for it, r in pool.pmap(mut_work, [[muts[i::96]] for i in range(96)]):
         if isinstance(r, pool.WorkerError):
